@@ -263,6 +263,11 @@ def w_statistical(ctx, rng, i):
     BWn = float(rng.uniform(0.05, 0.45))
     BW = BWn * fs
     cw = np.sqrt(P / n_pol) * np.ones((n_pol, N)) * np.exp(1j * rng.uniform(0, 6, (n_pol, 1)))
+    if i % 2 == 1 and not has_opt_noise:
+        # a field whose power steps from 1.8 P (first half) to 0.2 P (second half): the documented shot term is stationary, its variance is
+        # set by the MEAN signal power of the record, so each half of the noise still obeys the same law (stat.var_halves)
+        prof = np.where(np.arange(N) < N // 2, np.sqrt(1.8), np.sqrt(0.2))
+        cw = cw * prof
     np.random.seed(int(rng.integers(2 ** 31)))
     Pn = 0.0
     nz = None
